@@ -474,7 +474,8 @@ func c11AndAnyScratch(c *Ctx) {
 		}
 		// filter chunks: overlapping arrays / runs with controlled sizes
 		mode := r.Intn(4)
-		common := ivsToSet(spreadN(r, []int{1500, 2500, 3000, 4000, 4090}[r.Intn(5)]))
+		common := ivsToSet(spreadN(r, []int{1500, 2500, 3000, 4000, 4090, 4096, 4096, 4097}[r.Intn(8)]))
+		exact := r.Chance(0.5) // the union of the overlapping filters is exactly the common part
 		for i := 0; i < nf; i++ {
 			if r.Chance(0.15) {
 				continue // this filter lacks the key
@@ -483,7 +484,7 @@ func c11AndAnyScratch(c *Ctx) {
 			switch mode {
 			case 0: // heavy overlap: sum > 4096, union <= 4096
 				ch = common.Clone()
-				for j := 0; j < r.Intn(40); j++ {
+				for j := 0; j < r.Intn(40) && !exact; j++ {
 					ch.Add(r.Range(0, 65535))
 				}
 			case 1: // disjoint smallish arrays: sum <= 4096
@@ -555,6 +556,28 @@ func c11AndAnyScratch(c *Ctx) {
 	}
 	if d := checkEq(R.B, recv); d != "" {
 		c.Fail("AndAny/clone-source-changed", "AndAny on a clone changed the bitmap it was cloned from: %s", d)
+		return
+	}
+	if c.Prop == "C14" {
+		// size bound after AndAny and while single values are removed from the result (no RunOptimize)
+		bm := &BM{B: x, M: want.Clone()}
+		if !sizeBoundOracle(c, bm, "after-AndAny", "receiver") {
+			return
+		}
+		for i := 0; i < 6 && !bm.M.IsEmpty(); i++ {
+			v, _ := bm.M.Select(r.U64n(bm.M.Card()))
+			c.Step("Remove(%d)", v)
+			x.Remove(uint32(v))
+			bm.M.Remove(v)
+			if d := checkEq(x, bm.M); d != "" {
+				c.Fail("content/after-AndAny-Remove", "%s", d)
+				return
+			}
+			if !sizeBoundOracle(c, bm, "after-AndAny-then-Remove", "receiver") {
+				return
+			}
+		}
+		c.Distinct(mix(recv.Hash(), u.Hash()))
 		return
 	}
 	// the result must be usable and independent
